@@ -5,6 +5,7 @@ the corresponding runs on a real TapeRecorder over a spy-wrapped real cassette a
 between what the model prescribes (ev.seen, ev.calls, keys, store contents, recorder public state) and what the
 real code did.
 """
+import random
 import re
 import sys
 import threading
@@ -216,7 +217,7 @@ def build_class(recorder, ctx, world, cls_params, has_extractor, opt_sets, class
         if opts is not None:
             if opts['fb']:
                 fb = list(opts['fb'])
-                kw['fallback_aliases'] = fb if opts.get('fbAsList', True) else (lambda *a, **k: fb)
+                kw['fallback_aliases'] = fb if getattr(ctx, 'fb_as_list', True) else (lambda *a, **k: list(fb))
             kw['run_intercepted_when_missing'] = bool(opts['runOrig'])
             if opts['subst'] == 'value':
                 kw['value_when_missing'] = ctx.subst_value
@@ -229,6 +230,10 @@ def build_class(recorder, ctx, world, cls_params, has_extractor, opt_sets, class
         def ia1(self, x, *rest):
             return body_common('ia1', ctx.cur_arg, (x,))
 
+        @tr.intercept_input('ia5', **kw)   # same shape as ia1 under a new name (refactored alias, C02 fallbacks)
+        def ia5(self, x, *rest):
+            return body_common('ia5', ctx.cur_arg, (x,))
+
         @staticmethod
         @tr.static_intercept_input('ia2.{who}', alias_params_resolver=lambda x, noise=None: {'who': 'res'},
                                    capture_args=[CapturedArg(0, 'x')], data_handler=in_handler, **kw)
@@ -240,6 +245,7 @@ def build_class(recorder, ctx, world, cls_params, has_extractor, opt_sets, class
             return body_common('ia4', ctx.cur_arg, (x,))
 
         ns['ia1' + suffix] = ia1
+        ns['ia5' + suffix] = ia5
         ns['ia2' + suffix] = ia2
         ns['ia4' + suffix] = ia4
         # property variant: decorate a property object, as the repository's tests do
@@ -329,6 +335,8 @@ def build_class(recorder, ctx, world, cls_params, has_extractor, opt_sets, class
                 if ctx.observe:
                     rec_['obs'] = ctx.observe()
                 ctx.journal.append(rec_)
+                if getattr(ctx, 'clock', None) is not None:
+                    ctx.clock.advance(1.0)
                 ctx.cur = None
                 raise
             rec_['bodies'] = list(ctx.body_log)
@@ -336,6 +344,8 @@ def build_class(recorder, ctx, world, cls_params, has_extractor, opt_sets, class
             if ctx.observe:
                 rec_['obs'] = ctx.observe()
             ctx.journal.append(rec_)
+            if getattr(ctx, 'clock', None) is not None:
+                ctx.clock.advance(1.0)
         ctx.cur = None
         t, v = ctx.end
         if t == 'int':
@@ -359,8 +369,8 @@ def build_class(recorder, ctx, world, cls_params, has_extractor, opt_sets, class
             if st is not None and st.get('fault') == 'keyFail':
                 x = BadKey(argtoken)
             world.uncaptured += 1
-            if alias == 'ia1':
-                return getattr(inst, 'ia1' + suffix)(x)
+            if alias in ('ia1', 'ia5'):
+                return getattr(inst, alias + suffix)(x)
             if alias == 'ia2':
                 return getattr(inst, 'ia2' + suffix)(x, noise=('noise', world.uncaptured))
             if alias == 'ia4':
@@ -418,7 +428,7 @@ def build_class(recorder, ctx, world, cls_params, has_extractor, opt_sets, class
 # ------------------------------------------------------------------------------------------------------------------
 _RE_OUT = re.compile(r'^output: (.+) #(\d+)\.(output|result)$', re.S)
 _RE_IN = re.compile(r'^input: (\S+) args=', re.S)
-IN_ALIAS_REAL = {'ia1': 'ia1', 'ia2.res': 'ia2', 'ia3': 'ia3', 'ia4': 'ia4'}
+IN_ALIAS_REAL = {'ia1': 'ia1', 'ia2.res': 'ia2', 'ia3': 'ia3', 'ia4': 'ia4', 'ia5': 'ia5'}
 
 
 class Mismatch(dict):
@@ -433,6 +443,8 @@ class Driver(object):
         self.cassette_factory = cassette_factory
         self.fetch_factory = fetch_factory  # callable(inner cassette) -> cassette object used for fetching
         self.conc_seed = conc_seed
+        self.shadow = False
+        self.vary_threads = True
         self.in_opts = [dict(o) for o in consts.get('FreeOptsList', [])]
         self.out_opts = [dict(o) for o in consts.get('FreeOutOptsList', [])]
         self.world_tokens = {tuple(k): tuple(v) for k, v in consts['WorldMap'].items()}
@@ -530,22 +542,15 @@ class Driver(object):
                 'keys': keys, 'rid': r.current_recording_id, 'in_play': r.in_playback_mode}
 
     # -- main ----------------------------------------------------------------------------------------------------
-    def run(self, beh):
-        out = []
-        self.conc = Concretisation(self.conc_seed)
-        self.world = World(self.conc, self.world_tokens)
-        inner = self.cassette_factory()
-        self.inner = inner
-        self.spy = SpyCassette(inner)
+    def _make_env(self, tag):
+        """A fresh TapeRecorder over the (shared) spy cassette with its own scripted classes and script context."""
         old_random = tr_module.Random
         tr_module.Random = ScriptedRandom
-        ScriptedRandom.queue = []
-        ScriptedRandom.drawn = []
         try:
-            self.recorder = TapeRecorder(self.spy, random_seed=1)
+            recorder = TapeRecorder(self.spy, random_seed=1)
         finally:
             tr_module.Random = old_random
-        self.ctx = ctx = Ctx()
+        ctx = Ctx()
         ctx.inner_call = self.inner_call
         ctx.in_inner = False
         ctx.body_log = []
@@ -558,20 +563,44 @@ class Driver(object):
         ctx.junk = [('a', 1), 5]
         ctx.sent_object = lambda v: self.conc.value(v)
         ctx.result_object = lambda v: self.conc.value(v)
+        ctx.fb_as_list = (self.conc_seed % 2 == 0)
+        pyclasses = {}
+        for name, c in self.classes.items():
+            for ext in (False, True):
+                pyclasses[(name, ext)] = build_class(
+                    recorder, ctx, self.world, c, ext, {'in': self.in_opts, 'out': self.out_opts},
+                    class_level=name.endswith('c'), name='%s_%s_%s' % (name, 'x' if ext else 'n', tag))
+        return {'recorder': recorder, 'ctx': ctx, 'pyclasses': pyclasses}
+
+    def _use(self, env):
+        self.recorder = env['recorder']
+        self.ctx = env['ctx']
+        self.pyclasses = env['pyclasses']
+
+    def run(self, beh):
+        out = []
+        self.conc = Concretisation(self.conc_seed, prefer_mutable=(self.conc_seed % 2 == 1))
+        self.world = World(self.conc, self.world_tokens)
+        inner = self.cassette_factory()
+        self.inner = inner
+        self.spy = SpyCassette(inner)
+        ScriptedRandom.queue = []
+        ScriptedRandom.drawn = []
         self.keymap = {}
         self._uid[0] += 1
         uid = self._uid[0]
-        self.pyclasses = {}
-        for name, c in self.classes.items():
-            for ext in (False, True):
-                self.pyclasses[(name, ext)] = build_class(
-                    self.recorder, ctx, self.world, c, ext, {'in': self.in_opts, 'out': self.out_opts},
-                    class_level=name.endswith('c'), name='%s_%s_%d' % (name, 'x' if ext else 'n', uid))
+        self.clock = _FakeClock()
+        old_time = tr_module.time
+        tr_module.time = self.clock
+        main = self._make_env('%d' % uid)
+        main['ctx'].clock = self.clock
+        self._use(main)
         if beh[0]['rec']['enabled']:
             self.recorder.enable_recording()
         self.real_ids = {}  # model rid -> real id
         i = 1
         n = len(beh)
+        nshadow = 0
         try:
             while i < n:
                 k = beh[i]['ev']['kind']
@@ -581,30 +610,45 @@ class Driver(object):
                     else:
                         self.recorder.disable_recording()
                     i += 1
-                elif k == 'enter':
-                    j = i + 1
-                    while j < n and beh[j]['ev']['kind'] != 'finalise':
-                        j += 1
-                    if j >= n:
-                        break  # truncated behaviour (simulation depth): stop here
-                    self._run_op(beh, i, j, out)
-                    i = j + 1
+                    continue
+                if k == 'enter':
+                    endk, fn = 'finalise', self._run_op
                 elif k == 'playstart':
-                    j = i + 1
-                    while j < n and beh[j]['ev']['kind'] != 'playend':
-                        j += 1
-                    if j >= n:
-                        break
-                    self._run_play(beh, i, j, out)
-                    i = j + 1
-                elif k == 'playunknown':
-                    self._run_play_unknown(beh, i, out)
-                    i += 1
+                    endk, fn = 'playend', self._run_play
+                elif k in ('playunknown', 'playraise'):
+                    endk, fn = k, self._run_play_special
                 else:
                     raise ValueError('unexpected event %r at %d' % (k, i))
+                j = i
+                while j < n and beh[j]['ev']['kind'] != endk:
+                    j += 1
+                if j >= n:
+                    break  # truncated behaviour (simulation depth): stop here
+                if self.shadow and i > 1:
+                    # the same run on a fresh recorder over the same cassette content (C09: independence of history)
+                    nshadow += 1
+                    enabled = self.recorder.recording_enabled
+                    shadow = self._make_env('%d_s%d' % (uid, nshadow))
+                    shadow['ctx'].clock = self.clock
+                    if enabled:
+                        shadow['recorder'].enable_recording()
+                    self._use(shadow)
+                    ob = {}
+                    fn(beh, i, j, [], ob)
+                    self._use(main)
+                    oa = {}
+                    fn(beh, i, j, out, oa)
+                    if oa != ob:
+                        diff = sorted(kk for kk in set(oa) | set(ob) if oa.get(kk) != ob.get(kk))
+                        self._mm(out, 'history', j, {kk: ob.get(kk) for kk in diff}, {kk: oa.get(kk) for kk in diff},
+                                 'run on the used recorder differs from the same run on a fresh recorder: %s' % diff)
+                else:
+                    fn(beh, i, j, out, {})
+                i = j + 1
         finally:
+            tr_module.time = old_time
             for key in list(vars(opclasses)):
-                if key.endswith('_%d' % uid):
+                if key.endswith('_%d' % uid) or ('_%d_s' % uid) in key:
                     delattr(opclasses, key)
             try:
                 self.spy.inner.close()
@@ -619,7 +663,7 @@ class Driver(object):
             self._mm(out, 'idle', idx, (False, False, None, False), obs,
                      'recorder not idle after the run (recording, replaying, current id, forced)')
 
-    def _run_op(self, beh, i0, j, out):
+    def _run_op(self, beh, i0, j, out, obs):
         ctx = self.ctx
         enter = beh[i0]['ev']
         fin = beh[j]['ev']
@@ -637,6 +681,10 @@ class Driver(object):
                 step_idx.append(x)
         if end is None:
             end = ('val', 'v1')  # unreachable: the operation is cut short by an interrupt in a body
+        if self.vary_threads:
+            trnd = random.Random(self.conc_seed * 31 + i0)
+            for st in steps:
+                st['th'] = 1 if trnd.random() < 0.3 else 0
         ctx.steps = steps
         ctx.journal = []
         ctx.end = end
@@ -655,6 +703,8 @@ class Driver(object):
         ncreated0 = len(self.spy.created)
         copy_patch = _CopyFaultPatch(ctx)
         seen_op = None
+        import datetime as _dt
+        wall0 = _dt.datetime.utcnow()
         with copy_patch:
             try:
                 if enter['cls'].endswith('c'):
@@ -665,6 +715,7 @@ class Driver(object):
             except BaseException as ex:  # noqa
                 seen_op = ('raise', ex)
         self.spy.fail_save = False
+        wall = (wall0, _dt.datetime.utcnow())
         # -- operation-level transparency -------------------------------------------------------------------
         exp_end = tuple(beh[j]['ev']['seen'])
         if exp_end[0] == 'val':
@@ -725,11 +776,20 @@ class Driver(object):
                         self._mm(out, 'keys', x, sorted(mkeys), sorted(tokens, key=repr), 'keys in the active recording')
                     prev_keys = set(obs['keys'])
                     prev_model_keys = mkeys
+        obs['steps'] = [self._seen_token(jr['seen']) for jr in ctx.journal]
+        obs['bodies'] = [sorted((b['alias'], b.get('inner', False)) for b in jr['bodies']) for jr in ctx.journal]
+        obs['op'] = (seen_op[0], self._seen_token(('val', seen_op[1]) if seen_op[0] == 'ret' else
+                                                  (('exc', seen_op[1]) if isinstance(seen_op[1], (ScriptedError1, ScriptedError2))
+                                                   else ('abort', seen_op[1]))))
+        obs['per_step'] = [(jr['obs']['in_rec'], jr['obs']['forced'],
+                            sorted(self._key_token(k) for k in (jr['obs']['keys'] or ())) if jr['obs']['in_rec'] else None)
+                           for jr in ctx.journal if jr.get('obs')]
         # -- cassette calls of the whole run ---------------------------------------------------------------------
         exp_calls = []
         for x in range(i0, j + 1):
             exp_calls += list(beh[x]['ev']['calls'])
         got_calls = [c[0] for c in self.spy.log[log0:]]
+        obs['calls'] = sorted(got_calls)
         if sorted(got_calls) != sorted(exp_calls):
             self._mm(out, 'calls', j, exp_calls, got_calls, 'cassette calls made by the run')
         if not enter['icpt'] and got_calls:
@@ -741,6 +801,7 @@ class Driver(object):
                 self._mm(out, 'finalised', j, 1, nfin, 'save/abort calls for recording %s' % r.id)
         self._idle_check(j, out)
         # -- sampling decision -------------------------------------------------------------------------------
+        obs['kept'] = 'save' in got_calls
         if fin['decision'] in ('keep', 'drop'):
             kept = 'save' in got_calls
             if kept != (fin['decision'] == 'keep'):
@@ -760,6 +821,13 @@ class Driver(object):
                 fetched = None
             except Exception as ex:  # noqa
                 fetched = ('error', ex)
+            obs['stored'] = None if fetched is None else ('error' if isinstance(fetched, tuple) else
+                                                          sorted(self._project_recording(fetched).items(), key=repr))
+            if fetched is not None and not isinstance(fetched, tuple):
+                md = fetched.get_metadata()
+                obs['meta'] = sorted((str(k), repr(v)) for k, v in md.items()
+                                     if k not in (TapeRecorder.DURATION, TapeRecorder.RECORDED_AT,
+                                                  TapeRecorder.OPERATION_CLASS))
             if model is None:
                 if fetched is not None:
                     self._mm(out, 'store_presence', j, 'not stored', 'fetchable: %r' % (fetched,),
@@ -776,7 +844,7 @@ class Driver(object):
                     elif got != exp:
                         self._mm(out, 'store_values', j, sorted(exp.items()), sorted(got.items(), key=repr),
                                  'content of the saved recording')
-                    self._check_meta(fetched.get_metadata(), model['meta'], cls, j, out)
+                    self._check_meta(fetched.get_metadata(), model['meta'], cls, j, out, float(len(ctx.journal)), wall)
 
     def _bind_keys(self, newreal, newmodel, st):
         ins_model = [k for k in newmodel if k[0] == 'in']
@@ -793,7 +861,7 @@ class Driver(object):
                 self.keymap[rk] = cands[0][2]
                 ins_model.remove(cands[0])
 
-    def _check_meta(self, meta, model_meta, cls, idx, out):
+    def _check_meta(self, meta, model_meta, cls, idx, out, exp_duration=None, wall=None):
         got_cls = meta.get(TapeRecorder.OPERATION_CLASS)
         if got_cls is not cls:
             self._mm(out, 'meta_class', idx, cls.__name__, repr(got_cls), 'operation class in metadata')
@@ -809,10 +877,19 @@ class Driver(object):
         if user != exp_user:
             self._mm(out, 'meta_user', idx, exp_user, user, 'user metadata (extractor result, or nothing if it failed)')
         dur = meta.get(TapeRecorder.DURATION)
-        if not isinstance(dur, float) or dur < 0:
-            self._mm(out, 'meta_duration', idx, 'non-negative float', dur, 'duration')
-        if not isinstance(meta.get(TapeRecorder.RECORDED_AT), str):
-            self._mm(out, 'meta_time', idx, 'timestamp string', meta.get(TapeRecorder.RECORDED_AT), 'recorded-at')
+        if not isinstance(dur, (int, float)) or isinstance(dur, bool) or dur < 0:
+            self._mm(out, 'meta_duration', idx, 'non-negative number', dur, 'duration')
+        elif exp_duration is not None and abs(dur - exp_duration) > 1e-6:
+            self._mm(out, 'meta_duration', idx, exp_duration, dur, 'duration vs the (virtual) time the operation took')
+        ts = meta.get(TapeRecorder.RECORDED_AT)
+        try:
+            import datetime as _dt
+            parsed = _dt.datetime.strptime(ts, '%Y-%m-%d %H:%M:%S.%f') if '.' in ts else \
+                _dt.datetime.strptime(ts, '%Y-%m-%d %H:%M:%S')
+            if wall is not None and not (wall[0] - _dt.timedelta(seconds=2) <= parsed <= wall[1] + _dt.timedelta(seconds=2)):
+                self._mm(out, 'meta_time', idx, [str(wall[0]), str(wall[1])], ts, 'recorded-at outside the wall-clock window of the run')
+        except Exception:
+            self._mm(out, 'meta_time', idx, 'parsable UTC timestamp', ts, 'recorded-at')
 
     # -- replay --------------------------------------------------------------------------------------------------
     def _cassette_snapshot(self):
@@ -831,7 +908,7 @@ class Driver(object):
             return res
         return None
 
-    def _run_play(self, beh, i0, j, out):
+    def _run_play(self, beh, i0, j, out, obs):
         ctx = self.ctx
         start = beh[i0]['ev']
         rid = start['rid']
@@ -846,10 +923,11 @@ class Driver(object):
             else:
                 st = dict(e['step'])
                 st['res'] = tuple(st['res'])
-                if start['mode'] == 'free' and st['kind'] == 'in':
-                    st['optidx'] = self._opt_index(self.in_opts, st['opts'])
-                if start['mode'] == 'free' and st['kind'] == 'out':
-                    st['optidx'] = self._opt_index(self.out_opts, st['opts'])
+                if st.get('opt', 0):
+                    st['optidx'] = st['opt'] - 1
+                    st['opts'] = (self.in_opts if st['kind'] == 'in' else self.out_opts)[st['opt'] - 1]
+                else:
+                    st['opts'] = {'fb': (), 'runOrig': False, 'subst': 'none', 'failMissing': True}
                 if st['kind'] == 'out' and st['res'][0] == 'none':
                     st['res'] = ('val', 'v1')
                 steps.append(st)
@@ -904,8 +982,12 @@ class Driver(object):
                 if exp_seen[0] == 'data':
                     if not (got[0] == 'val' and same_value(got[1], ctx.user_data)):
                         self._mm(out, 'pseen', x, exp_seen, repr(got)[:100], 'play_data')
+        obs['play'] = ('ok', 'Playback') if seen[0] == 'ok' else self._seen_token(('abort', seen[1]))
+        obs['steps'] = [self._replay_seen_token(jr['seen'], st) for jr, st in zip(ctx.journal, steps)]
+        obs['bodies'] = [sorted((b['alias'], b.get('inner', False)) for b in jr['bodies']) for jr in ctx.journal]
         # cassette untouched
         got_calls = [c[0] for c in self.spy.log[log0:]]
+        obs['calls'] = sorted(got_calls)
         if [c for c in got_calls if c not in ('get', 'getmeta')]:
             self._mm(out, 'pcalls', j, ['get'], got_calls, 'cassette calls during play()')
         snap1 = self._cassette_snapshot()
@@ -917,13 +999,15 @@ class Driver(object):
             exp_pb = {tuple(k): v for k, v in [tuple(p) for p in fin['pbOut']]}
             got_pb_list = [(self._key_token(o.key), self._output_token(o)) for o in pb.playback_outputs]
             got_pb = dict(got_pb_list)
+            obs['pb'] = sorted(got_pb_list, key=repr)
             if len(got_pb_list) != len(got_pb):
                 self._mm(out, 'pbout', j, 'one entry per call', [k for k, _ in got_pb_list], 'duplicate playback outputs')
             if got_pb != exp_pb:
                 self._mm(out, 'pbout', j, sorted(exp_pb.items()), sorted(got_pb.items(), key=repr), 'playback outputs')
             rec_keys = set(tuple(k) for k in fin['keys'])
-            exp_rec = {tuple(k): tuple(v)[1] for k, v in _items(fin['recOut']) if tuple(k) in rec_keys}
+            exp_rec = {tuple(k): tuple(v)[1] for k, v in _items(_store_get(beh[j]['cas']['store'], rid)['data']) if tuple(k) in rec_keys}
             got_rec = dict((self._key_token(o.key), self._output_token(o)) for o in pb.recorded_outputs)
+            obs['rec'] = sorted(got_rec.items(), key=repr)
             if got_rec != exp_rec:
                 self._mm(out, 'recout', j, sorted(exp_rec.items()), sorted(got_rec.items(), key=repr), 'recorded outputs')
 
@@ -954,23 +1038,51 @@ class Driver(object):
             return ('val', self._token_of_value(obj))
         return self._seen_token(seen)
 
-    def _run_play_unknown(self, beh, i, out):
+    def _run_play_special(self, beh, i, j, out, obs):
+        """play() of an id that was never saved / play() whose playback function raises before the operation."""
+        kind = beh[i]['ev']['kind']
         called = []
         log0 = len(self.spy.log)
         snap0 = self._cassette_snapshot()
+
+        def fn(recording):
+            called.append(1)
+            if kind == 'playraise':
+                raise ScriptedError2('scripted failure of the playback function')
+        rid = self.real_ids.get(beh[i]['ev']['rid']) if kind == 'playraise' else 'K1/this-id-was-never-saved'
         try:
-            self.recorder.play('K1/this-id-was-never-saved', lambda recording: called.append(1))
+            self.recorder.play(rid, fn)
             got = ('ok', 'Playback')
         except pbexc.TapeRecorderException as ex:
             got = ('err', type(ex).__name__)
+        except ScriptedError2:
+            got = ('exc', 'E2')
         except BaseException as ex:  # noqa
             got = ('err', 'FrameworkError:' + type(ex).__name__)
         exp = tuple(beh[i]['ev']['seen'])
-        if got != exp or called:
-            self._mm(out, 'pseen', i, exp, (got, 'playback function called' if called else ''), 'play() of an unknown id')
+        obs['play'] = got
+        obs['called'] = len(called)
+        if got != exp or (kind == 'playunknown' and called):
+            self._mm(out, 'pseen', i, exp, (got, 'playback function called' if called else ''),
+                     'play() of an unknown id' if kind == 'playunknown' else 'play() whose playback function raises')
         if self._cassette_snapshot() != snap0:
-            self._mm(out, 'pstore', i, 'unchanged', 'changed', 'cassette changed by play() of an unknown id')
+            self._mm(out, 'pstore', i, 'unchanged', 'changed', 'cassette changed by a failing play()')
+        if [c for c in self.spy.log[log0:] if c[0] not in ('get', 'getmeta')]:
+            self._mm(out, 'pcalls', i, ['get'], [c[0] for c in self.spy.log[log0:]], 'cassette calls during play()')
         self._idle_check(i, out)
+
+
+class _FakeClock(object):
+    """Stands in for time.time inside playback.tape_recorder: advances only when the script says so."""
+
+    def __init__(self):
+        self.now = 1000.0
+
+    def __call__(self):
+        return self.now
+
+    def advance(self, dt):
+        self.now += dt
 
 
 class _CopyFaultPatch(object):
